@@ -132,7 +132,7 @@ Qed.
 (* a clear that removes every matching key: no limit, or a limit above the count *)
 Lemma LR_clear_all m D l p limit zl m' t' lp al : wf m -> LR m D l ->
   (limit = None /\ (zl < 0)%Z \/
-   exists n, limit = Some n /\ zl = Z.of_N n /\ N.of_nat (length (go_S m (d_main D) p)) < n) ->
+   exists n, limit = Some n /\ zl = Z.of_N n /\ N.of_nat (length (matching_keys p m)) < n) ->
   spec_clear (c_main (view l)) m (t_main l) p limit = (m', t', lp, al) ->
   let del := rev (cp_loop p (om_keys (ups (d_main D)))
                           (keys_to_clear (ups (d_main D)) (matching_keys p m)) zl []) in
@@ -143,10 +143,11 @@ Proof.
   assert (Wv : wf (c_main (view l))) by (rewrite Vw; now apply mview_wf).
   destruct (spec_clear_all _ _ _ p Wv W TW (LR_I2 m D l W R) limit m' t' lp al) as (E1 & E2 & E3).
   { destruct Big as [[-> _]|(n & -> & _ & L)]; [now left | right]. exists n. split; [reflexivity|].
-    pose proof (untouched_le_S m D l p W R). lia. }
+    rewrite skipn_all2 by lia. intros k []. }
   { exact SC. }
   destruct (go_clear_all m (d_main D) p W S zl) as (G1 & G2).
-  { destruct Big as [[_ L]|(n & _ & -> & L)]; [now left | right]. unfold go_S in L. lia. }
+  { destruct Big as [[_ L]|(n & _ & -> & L)]; [now left | right].
+    pose proof (filter_length_le' (fun k => negb (om_mem k (ups (d_main D)))) (matching_keys p m)). lia. }
   cbn zeta in *. split; cbn; try assumption.
   - now apply sd_wf_delete_list.
   - rewrite E1, G1, Vw. reflexivity.
@@ -156,22 +157,17 @@ Qed.
 (* a limited clear in a range the transaction has not touched *)
 Lemma LR_clear_first m D l p n m' t' lp al : wf m -> LR m D l ->
   (forall k, has_prefix p k = true -> om_mem k (ups (d_main D)) = false) ->
-  (forall k, In k (matching_keys p m) -> ks_mem k (dels (d_main D)) = false) ->
   spec_clear (c_main (view l)) m (t_main l) p (Some n) = (m', t', lp, al) ->
   let del := rev (cp_loop p (om_keys (ups (d_main D)))
                           (keys_to_clear (ups (d_main D)) (matching_keys p m)) (Z.of_N n) []) in
   LR m (mk_diff (fold_left sd_delete del (d_main D)) (d_children D) (d_killed D))
      (mk_slevel (mk_cstate m' (c_children (view l))) t' (t_children l)).
 Proof.
-  intros W R A1 A2 SC. pose proof R as [C K S Vw VC TC TW TT].
+  intros W R A1 SC. pose proof R as [C K S Vw VC TC TW TT].
   assert (Wv : wf (c_main (view l))) by (rewrite Vw; now apply mview_wf).
   destruct (spec_clear_first _ _ _ p Wv W TW (LR_I2 m D l W R) n m' t' lp al) as (E1 & E2 & E3).
   { intros k P T. rewrite TT in T. unfold tg in T. rewrite (A1 k P) in T. cbn in T.
-    assert (Mb : om_mem k m = false).
-    { destruct (om_mem k m) eqn:Mb; [|reflexivity].
-      assert (I : In k (matching_keys p m)) by (apply kmem_in; rewrite kmem_matching by exact W; now rewrite P, Mb).
-      apply A2 in I. congruence. }
-    split; [|exact Mb]. rewrite Vw, mview_mem by assumption. rewrite (A1 k P), T. reflexivity. }
+    rewrite Vw, mview_mem by assumption. rewrite (A1 k P), T. reflexivity. }
   { exact SC. }
   cbn zeta in *. rewrite (go_clear_first m (d_main D) p S n A1).
   set (del := firstn (N.to_nat n) (matching_keys p m)) in *.
@@ -182,25 +178,22 @@ Proof.
 Qed.
 
 (* the guard's negation gives one of the two cases *)
-Lemma limit_guard_cases m d p n : wf m ->
+Lemma limit_guard_cases (m : omap val) d p n : wf m ->
   limit_guard d p (matching_keys p m) n = false ->
-  N.of_nat (length (go_S m d p)) < n \/
-  ((forall k, has_prefix p k = true -> om_mem k (ups d) = false) /\
-   (forall k, In k (matching_keys p m) -> ks_mem k (dels d) = false)) .
+  N.of_nat (length (matching_keys p m)) < n \/
+  (forall k, has_prefix p k = true -> om_mem k (ups d) = false).
 Proof.
   intros W G. unfold limit_guard in G. apply andb_false_iff in G as [G|G].
   - left. apply N.leb_gt in G. exact G.
-  - right. apply orb_false_iff in G as [G1 G2]. split.
-    + intros k P. destruct (om_mem k (ups d)) eqn:M; [|reflexivity].
-      unfold om_mem in M. destruct (om_get k (ups d)) eqn:E; [|discriminate].
-      (* k is a key of ups *)
-      assert (I : exists x, In x (om_keys (ups d)) /\ has_prefix p x = true).
-      { exists k. split; [|exact P]. clear -E. induction (ups d) as [|[k1 v1] r IH]; [discriminate|].
-        cbn in *. destruct (kcmp k k1) eqn:C; try discriminate.
-        - apply kcmp_eq in C. now left.
-        - right. now apply IH. }
-      apply existsb_exists in I. congruence.
-    + intros k I. exact (existsb_false _ _ G2 k I).
+  - right. intros k P. destruct (om_mem k (ups d)) eqn:M; [|reflexivity].
+    unfold om_mem in M. destruct (om_get k (ups d)) eqn:E; [|discriminate].
+    (* k is a key of ups *)
+    assert (I : exists x, In x (om_keys (ups d)) /\ has_prefix p x = true).
+    { exists k. split; [|exact P]. clear -E. induction (ups d) as [|[k1 v1] r IH]; [discriminate|].
+      cbn in *. destruct (kcmp k k1) eqn:C; try discriminate.
+      - apply kcmp_eq in C. now left.
+      - right. now apply IH. }
+    apply existsb_exists in I. congruence.
 Qed.
 
 (* ------------------------------------------------------------------ one step *)
@@ -231,6 +224,8 @@ Proof.
       * now apply wf_del.
       * now rewrite M.
     + (* ClearPrefix *)
+      destruct (covers_child_keys p) eqn:CK;
+        [split; [reflexivity|]; split; cbn; try assumption; constructor|].
       destruct (spec_clear_eta (c_main bkd) (c_main bkd) [] p None) as (m' & t' & lp & al & E).
       rewrite E. split; [reflexivity|].
       assert (Wb : wf (c_main bkd)) by now rewrite M.
@@ -242,17 +237,19 @@ Proof.
       * unfold trie_clear_prefix. now apply wf_filter.
       * rewrite E1, M. reflexivity.
     + (* ClearPrefixLimit *)
+      destruct (covers_child_keys p) eqn:CK;
+        [split; [reflexivity|]; split; cbn; try assumption; constructor|].
       destruct (spec_clear_eta (c_main bkd) (c_main bkd) [] p (Some n)) as (m' & t' & lp & al & E).
       rewrite E.
       assert (Wb : wf (c_main bkd)) by now rewrite M.
       assert (I2 : forall k, om_mem k (c_main bkd) = true -> ks_mem k [] = false ->
                              om_mem k (c_main bkd) = true) by (intros k Hk _; exact Hk).
       assert (A0 : forall k, has_prefix p k = true -> ks_mem k [] = true ->
-                             om_mem k (c_main bkd) = false /\ om_mem k (c_main bkd) = false)
+                             om_mem k (c_main bkd) = false)
         by (intros k _ T; discriminate).
       destruct (spec_clear_first (c_main bkd) (c_main bkd) [] p Wb Wb wf_nil I2 n m' t' lp al A0 E)
         as (E1 & _ & _).
-      unfold step_guard in G. cbn [ts_txs ts_state] in G.
+      unfold step_guard in G. cbn [ts_txs ts_state fix_child_prefix cfg_fixed andb] in G. rewrite CK in G.
       destruct (order_guard (bk_main b) p n) eqn:OG; [discriminate|].
       pose proof (trie_clear_limit_lex (bk_main b) p n W OG) as TL.
       destruct (trie_clear_prefix_limit (bk_main b) p n) as [[mg dg] ag]. cbn in TL. cbn.
@@ -280,6 +277,10 @@ Proof.
     + (* Del *) split; [reflexivity|]. split; cbn; try assumption.
       constructor; [now apply LR_del | exact L].
     + (* ClearPrefix *)
+      cbn [fix_child_prefix cfg_fixed andb].
+      destruct (covers_child_keys p) eqn:CK;
+        [split; [reflexivity|]; split; cbn; try assumption; constructor; assumption|].
+      unfold state_keys_cp. cbn [fix_child_prefix cfg_fixed].
       rewrite state_keys_fixed. unfold d_clear_prefix, clear_prefix_keys.
       rewrite fold_d_delete_main. rewrite M.
       destruct (spec_clear_eta (c_main (view l)) m (t_main l) p None) as (m' & t' & lp & al & E).
@@ -287,17 +288,22 @@ Proof.
       constructor; [|exact L].
       apply (LR_clear_all m D l p None (-1)%Z m' t' lp al W R); [left; split; [reflexivity | lia] | exact E].
     + (* ClearPrefixLimit *)
-      unfold step_guard in G. cbn [ts_txs ts_state] in G. fold m in G. rewrite state_keys_fixed in G.
+      cbn [fix_child_prefix cfg_fixed andb].
+      destruct (covers_child_keys p) eqn:CK;
+        [split; [reflexivity|]; split; cbn; try assumption; constructor; assumption|].
+      unfold step_guard in G. cbn [ts_txs ts_state fix_child_prefix cfg_fixed andb] in G. rewrite CK in G.
+      fold m in G. rewrite state_keys_fixed in G.
       destruct (limit_guard (d_main D) p (matching_keys p m) n) eqn:LG; [discriminate|].
+      unfold state_keys_cp. cbn [fix_child_prefix cfg_fixed].
       rewrite state_keys_fixed. unfold d_clear_prefix, clear_prefix_keys.
       rewrite fold_d_delete_main. rewrite M.
       destruct (spec_clear_eta (c_main (view l)) m (t_main l) p (Some n)) as (m' & t' & lp & al & E).
       rewrite E. cbn. split; [reflexivity|]. split; cbn; try assumption.
       constructor; [|exact L].
-      destruct (limit_guard_cases m (d_main D) p n W LG) as [Big|[A1 A2]].
+      destruct (limit_guard_cases m (d_main D) p n W LG) as [Big|A1].
       * apply (LR_clear_all m D l p (Some n) (Z.of_N n) m' t' lp al W R); [|exact E].
         right. exists n. auto.
-      * now apply (LR_clear_first m D l p n m' t' lp al W R A1 A2).
+      * now apply (LR_clear_first m D l p n m' t' lp al W R A1).
     + (* Next *)
       rewrite Vw. rewrite (mview_next m (d_main D) k W S). cbn.
       split; [reflexivity | split; cbn; try assumption; constructor; assumption].
